@@ -47,6 +47,25 @@ func NewPath(tag string) string {
 	return filepath.Join(ScratchDir(), fmt.Sprintf("%s-%d-%d.zap", tag, os.Getpid(), n))
 }
 
+// NewDir creates a fresh, empty directory in the scratch directory (for operations whose
+// surroundings are inspected afterwards: nothing but the destination may appear in it).
+func NewDir(tag string) string {
+	n := atomic.AddInt64(&fileSeq, 1)
+	d := filepath.Join(ScratchDir(), fmt.Sprintf("%s-%d-%d.d", tag, os.Getpid(), n))
+	_ = os.MkdirAll(d, 0o700)
+	return d
+}
+
+// ListDir returns the names in dir (sorted).
+func ListDir(dir string) []string {
+	ents, _ := os.ReadDir(dir)
+	var out []string
+	for _, e := range ents {
+		out = append(out, e.Name())
+	}
+	return out
+}
+
 // Build builds an in-memory segment from fresh stubs. chunkMode 0 means the
 // public New (mode 1026).
 func Build(b *spec.BatchSpec, chunkMode uint32) (segment.Segment, uint64, error) {
